@@ -18,7 +18,7 @@ int vfs_ev_n = 0;
 char vfs_out[VFS_OUTCAP + 1];
 size_t vfs_out_n = 0;
 
-struct vhandle { int node; size_t pos; int open; int writing; };
+struct vhandle { int node; size_t pos; int open; int writing; int line; };
 static struct vhandle verif_stdout_obj, verif_stderr_obj;
 FILE *stdout = (FILE *)&verif_stdout_obj;
 FILE *stderr = (FILE *)&verif_stderr_obj;
@@ -44,6 +44,7 @@ void vfs_set(int node, const char *data, size_t len) {
   for (size_t k = 0; k < VFS_CONTENT; k++) vfs[node].data[k] = k < len ? data[k] : 0;
   vfs[node].len = len;
 }
+void vfs_set_lines(int node, const short *ends, int n) { vfs[node].line_ends = ends; vfs[node].n_lines = n; }
 void vfs_own(int node, uid_t uid, gid_t gid) { vfs[node].uid = uid; vfs[node].gid = gid; }
 void vfs_commit(void) {}
 const char *VP(const char *path) { return path; }
@@ -57,7 +58,21 @@ static int vfs_ancestors_ok(int i) {
   while (p >= 0) { if (vfs[p].kind != VK_DIR) return 0; p = vfs[p].parent; }
   return 1;
 }
+#ifndef VFS_CWD
+#define VFS_CWD "/w"
+#endif
 int vfs_lookup(const char *path) {
+  char abs_[64];
+  if (path[0] != '/') {
+    /* relative names are resolved against the concrete working directory VFS_CWD */
+    size_t o = 0;
+    for (const char *c = VFS_CWD; *c; c++) abs_[o++] = *c;
+    abs_[o++] = '/';
+    const char *q = (path[0] == '.' && path[1] == '/') ? path + 2 : path;
+    for (; *q; q++) { __CPROVER_assert(o < 62, "bound: path length"); abs_[o++] = *q; }
+    abs_[o] = 0;
+    path = abs_;
+  }
   int i = vfs_slot(path);
   if (i < 0) {
     /* "<dir>/." and "<dir>/.." */
@@ -117,7 +132,7 @@ FILE *fopen(const char *path, const char *mode) {
   }
   struct vhandle *h = malloc(sizeof *h);
   __CPROVER_assume(h != 0);
-  h->node = i; h->pos = 0; h->open = 1; h->writing = wr; vfs_open_count++;
+  h->node = i; h->pos = 0; h->open = 1; h->writing = wr; h->line = 0; vfs_open_count++;
   return (FILE *)h;
 }
 extern const char *verif_scoped_src; extern void verif_scope_end(void);
@@ -138,7 +153,14 @@ ssize_t getline(char **lineptr, size_t *n, FILE *fp) {
   if (f->kind == VK_LINK) return -1;               /* link to /dev/null: empty */
   if (h->pos >= f->len) return -1;
   size_t k = 0;
-  while (h->pos + k < f->len) { char c = f->data[h->pos + k]; k++; if (c == '\n') break; }
+  if (f->line_ends != 0) {
+    /* concrete line structure supplied by the harness */
+    if (h->line >= f->n_lines) return -1;
+    k = (size_t)f->line_ends[h->line] - h->pos;
+    h->line++;
+  } else {
+    while (h->pos + k < f->len) { char c = f->data[h->pos + k]; k++; if (c == '\n') break; }
+  }
   if (*lineptr == 0 || *n < k + 1) {
     /* growth path (glibc reallocs to at least the needed size) */
     char *nb = malloc(GETLINE_CAP);
@@ -248,9 +270,6 @@ int scandir(const char *dirp, struct dirent ***namelist, int (*filter)(const str
   return cnt;
 }
 
-#ifndef VFS_CWD
-#define VFS_CWD "/w"
-#endif
 char *realpath(const char *path, char *resolved) {
   /* relative names are resolved against the concrete cwd VFS_CWD; the file must exist */
   char tmp[64];
